@@ -94,6 +94,9 @@ class RunC(RtContract):
                 same.append(BoolVal(a is w) if isinstance(w, TextV) or isinstance(a, TextV) else ex.box(a) == ex.box(w))
             ex.vcs.append(VC(f'ghost:creation-passes-ctx-and-text-unchanged@{ex.ordn(node)}', st.pc, And(*same), 'post', path=list(st.trace)))
             key = mk3(CALL, callee, ex.box(args[-1]))
+            # requires (A-wf, no left recursion): the requested key is not already being evaluated further down the stack.
+            # Everything else - in particular that the key is not memoised - must follow from the branch conditions.
+            st.assume(Select(g['cnt'], key) == 0)
             # at most one body evaluation per key: no generator was ever created for this key
             ex.vcs.append(VC(f'ghost:at-most-once(started[key]==0 before creation)@{ex.ordn(node)}', st.pc,
                              Select(g['started'], key) == 0, 'post', path=list(st.trace)))
@@ -165,8 +168,6 @@ class RunC(RtContract):
             r = orig(e, name, meth, st)
             L = st.env[name]
             k = Select(L.arrs[0], L.n - 1)
-            # requires (A-wf, no left recursion): the requested key is not already being evaluated further down the stack
-            st.assume(Select(g['cnt'], k) == 0)
             g['cnt'] = Store(g['cnt'], k, Select(g['cnt'], k) + 1)
             # the pushed key must be the key the generator was created for
             ex.vcs.append(VC(f'ghost:pushed-key-is-creation-key@{ex.ordn(e)}', st.pc, k == g.get('last_created_key', NONE), 'post', path=list(st.trace)))
@@ -199,6 +200,13 @@ class RunC(RtContract):
         def raise_hook(ex, s, st):
             return ('raise-statement', ast.unparse(s.exc) if s.exc else '')
         ex.raise_hook = raise_hook
+
+        def name_hook(ex, ident, st):
+            # an unknown module-level constant: some integer (its value is not known to the contract)
+            if ident.isupper() or (ident.startswith('_') and ident[1:].replace('_', '').isupper()):
+                return Const(f'GLOBAL_{ident}', I)
+            return None
+        ex.name_hook = name_hook
 
     # ------------------------------------------------------------------ invariant
     def loops(self, cx):
